@@ -139,3 +139,9 @@ fn process_snapshots<S: Open>(
 
     Ok(snapshots)
 }
+
+#[cfg(rustic_core_verif)]
+#[allow(missing_docs, unused_imports, dead_code, clippy::all, clippy::pedantic, clippy::nursery)]
+pub mod verif_hooks {
+    use super::*;
+}
